@@ -82,6 +82,10 @@ pub trait Subject {
     fn alt_builds(&self) -> Vec<(&'static str, Box<dyn Subject>)> {
         vec![]
     }
+    /// `dst.clone_from(self)` for destinations that held a longer, a shorter and an empty value before
+    fn clone_from_variants(&self) -> Vec<(&'static str, Box<dyn Subject>)> {
+        vec![]
+    }
     fn is_f32(&self) -> bool;
     /// number of scalar components per sample (for the C05 mean-words bound)
     fn width(&self) -> usize {
@@ -276,6 +280,20 @@ macro_rules! weighted_subject {
             fn debug_full(&self) -> String {
                 format!("{:?}", self.0)
             }
+            fn clone_from_variants(&self) -> Vec<(&'static str, Box<dyn Subject>)> {
+                let ws = &self.1;
+                let one: $W = 1 as $W;
+                let mut out: Vec<(&'static str, Box<dyn Subject>)> = vec![];
+                let longer: Vec<$W> = std::iter::repeat(one).take(ws.len() + 5).collect();
+                let shorter: Vec<$W> = vec![one];
+                for (name, v) in [("destination held a longer value", longer), ("destination held a shorter value", shorter)] {
+                    if let Ok(mut d) = WeightedAliasIndex::new(v) {
+                        d.clone_from(&self.0);
+                        out.push((name, Box::new($aname(d, ws.clone())) as Box<dyn Subject>));
+                    }
+                }
+                out
+            }
             fn is_f32(&self) -> bool {
                 $is32
             }
@@ -332,6 +350,20 @@ macro_rules! weighted_subject {
                 let (a, b) = ws.split_at(ws.len() / 3);
                 push("chain of two parts", WeightedTreeIndex::new(a.iter().chain(b.iter()).copied()));
                 push("slice of references", WeightedTreeIndex::new(ws.iter()));
+                out
+            }
+            fn clone_from_variants(&self) -> Vec<(&'static str, Box<dyn Subject>)> {
+                let ws = &self.1;
+                let one: $W = 1 as $W;
+                let mut out: Vec<(&'static str, Box<dyn Subject>)> = vec![];
+                let longer: Vec<$W> = std::iter::repeat(one).take(ws.len() + 5).collect();
+                let shorter: Vec<$W> = ws.iter().take(ws.len() / 2).copied().collect();
+                for (name, v) in [("destination held a longer value", longer), ("destination held a shorter value", shorter), ("destination was empty", vec![])] {
+                    if let Ok(mut d) = WeightedTreeIndex::<$W>::new(v) {
+                        d.clone_from(&self.0);
+                        out.push((name, Box::new($tname(d, ws.clone())) as Box<dyn Subject>));
+                    }
+                }
                 out
             }
             fn is_f32(&self) -> bool {
